@@ -15,7 +15,7 @@ ENGINE = 'crosshair'
 LEVEL = 'other'
 TECHNIQUE = 'CrossHair (z3-backed symbolic execution) of a history interpreter over the real Config/ConfigState/_config_var/InverseOperator against an explicit-stack oracle; two tasks in separate contextvars.Contexts under a symbolic schedule'
 EXPLANATION = ('A symbolic history (List[int]) of events {enter one of three settings, leave normally, leave through an exception, create a lazy inverse, '
-               'apply it, read} is executed on the REAL Config / ConfigState / _config_var / InverseOperator (lineax.linear_solve replaced by a recorder); '
+               'apply it, read, transpose the last inverse} is executed on the REAL Config / ConfigState / _config_var / InverseOperator (lineax.linear_solve replaced by a recorder); '
                'after every event the active configuration must equal the top of an explicit stack (inheritance of un-named settings, restoration on both '
                'exit kinds), the object returned by __enter__ must be the active one, an inverse must hand the solver the configuration active at its '
                'creation, and at the end Config.instance() is the initial object. Isolation: two such histories run as two logical tasks, each in its own '
@@ -23,7 +23,7 @@ EXPLANATION = ('A symbolic history (List[int]) of events {enter one of three set
                'stack. CrossHair reports "Confirmed over all paths" = holds for every history within the bound. A concrete run with two real threads and '
                'barriers complements it.')
 FUNCTIONS = ['Config.__init__/__enter__/__exit__/instance', 'ConfigState (frozen dataclass, replace)', '_config_var (ContextVar, token reset)', 'InverseOperator.__init__ (config capture) / mv (solver, throw, options)']
-BOUNDS = {'quick': 'histories of length <= 4 over 8 event kinds (4 680 histories); two-task schedules of length <= 4 over 4 event kinds', 'thorough': 'histories of length <= 5 (37 448), schedules of length <= 5'}
+BOUNDS = {'quick': 'histories of length <= 4 over 9 event kinds (7 380 histories); two-task schedules of length <= 4 over 4 event kinds', 'thorough': 'histories of length <= 5 (66 429), schedules of length <= 5'}
 STUBS = ['lineax.linear_solve -> recorder of (solver, throw, options); jax.debug.callback dropped',
          'equinox module construction and the recorded solve run under crosshair NoTracing (values there are concrete)']
 ASSUMPTIONS = ['a thread switch changes context-variable state only through the Context switch; preemption inside the C-level ContextVar.set is outside the claim',
@@ -35,7 +35,7 @@ CASE_TIMEOUT = {'quick': 700, 'thorough': 2700}
 
 def cases(tier, seed):
     n = 4 if tier == 'quick' else 5
-    out = [('scoped', first, n) for first in range(8)]
+    out = [('scoped', first, n) for first in range(9)]
     out += [('isolated', first, n) for first in range(4)]
     out.append(('threads',))
     return out
